@@ -50,6 +50,8 @@ impl Parser for File {
     fn parse(input: &str) -> IResult<&str, File> {
         let mut t: File = Default::default();
 
+        // a document may consist of blanks (white space, comments) only
+        let (input, _) = opt(blank)(input)?;
         let (remain, items) = many_till(
             map(
                 tuple((opt(blank), Item::parse, opt(blank))),
